@@ -394,14 +394,17 @@ public:
                 } else if (got == expected && newlyAuthInScope) {
                     stat("fired_by_key_id_other_account");   // R1 without a visible effect: the key already had the level the decision asks for
                 } else if (!crossSuperseded && otherDisNow) {
-                    // R3: a key with the sender's ID was distrusted for ANOTHER account: the held decision is thrown away although its own sender key
-                    // was neither authenticated nor distrusted (anybody entitled to distrust one of his own keys can name that ID)
-                    // Tolerated (and counted), as for R1, when the account the ID was distrusted for could have decided about r's key itself: the own
-                    // account or the account the decision is about (or the step was started by an own key / own device).
+                    // R3 (fixed in repo commit 845d75c, key C18:cross-account-discard:distrust stays live and UNLISTED): a key with the sender's ID was
+                    // distrusted for ANOTHER account and the held decision was thrown away although its own sender key was neither authenticated
+                    // nor distrusted.  Tolerated (and counted), as for R1, when the account the ID was distrusted for could have decided about
+                    // r's key itself: the own account or the account the decision is about (or the step was started by an own key / own device).
                     bool inScopeOfOther = (op.kind == Op::Msg && op.acc == own) || (op.kind == Op::Man && op.o == own);
                     for (int acc2 = 0; acc2 < NACC; acc2++) if (acc2 != r.sacc && a.level(acc2, r.sk) == L_MANDIS && (acc2 == own || acc2 == r.owner)) inScopeOfOther = true;
                     if (inScopeOfOther) stat("discarded_by_key_id_other_account");
-                    else { stat("cross_owner_discarded"); fail("C18:cross-account-discard", recText(r)); }
+                    // Supersession (the open finding) needs a fired decision with r's verdict for r's key ID; if no key with that ID has r's
+                    // verdict or moved in this step it cannot be supersession, so it is the distrust mechanism for sure.
+                    else if (!sameIdDecided) { stat("cross_owner_discarded"); fail("C18:cross-account-discard:distrust", recText(r)); }
+                    else { stat("cross_owner_superseded_or_discarded"); fail("C18:cross-account-discard", recText(r)); }
                 } else if (sameIdDecided || crossSuperseded) {
                     // R2: a fired decision with the same verdict for the same key ID of ANOTHER owner removed it (removal is by verdict and key ID)
                     stat("cross_owner_superseded"); fail("C18:cross-account-discard", recText(r));
@@ -550,9 +553,9 @@ int main(int argc, char **argv) {
     t.runText(0, 0, { "man 0 1 - 1", "msg 0 1 1 1 0 1:2:-", "man 0 1 1 -" });                    // a distrusted sender is "not authenticated": held, fires if authenticated later
     t.runText(0, 0, { "msg 0 1 1 1 0 1:-:2", "msg 0 1 1 2 0 1:3:-", "man 0 1 1 -" });            // a FIRED distrust of B:k2 discards what B:k2 had sent
 
-    // cross-account discards (findings C18:cross-account-discard:*): B, authenticated by k3, says "B:k1 distrusted" and thereby throws away what C's device k1 had sent
+    // witness of the defect fixed in 845d75c (key C18:cross-account-discard:distrust): B, authenticated by k3, says "B:k1 distrusted"; what C's device k1 had sent must survive and fire later
     t.runText(0, 0, { "msg 0 2 1 1 0 2:2:-", "man 0 1 3 -", "msg 0 1 1 3 0 1:-:1", "man 0 2 1 -" });
-    // B's held "B:k2 distrusted" fires (B:k4 authenticated) and removes C's held "C:k2 distrusted" as well; authenticating C:k1 later applies nothing
+    // open finding C18:cross-account-discard: B's held "B:k2 distrusted" fires (B:k4 authenticated) and removes C's held "C:k2 distrusted" as well; authenticating C:k1 later applies nothing
     t.runText(0, 0, { "msg 0 2 1 1 0 2:-:2", "msg 0 1 1 4 0 1:-:2", "man 0 1 4 -", "man 0 2 1 -" });
     // the same trust message twice, as groupchat, through the client's messageReceived signal; contradicting verdicts; held trust then held distrust from two senders
     t.runText(0, 0, { "man 0 1 1 -", "msg 0 1 1 1 0 1:2:3", "msg 0 1 1 1 0 1:2:3", "msg 0 1 1 1 0 1:4:- g", "msg 0 1 1 1 0 1:-:4 s", "msg 0 1 1 2 0 1:3:3 gs" });
